@@ -489,29 +489,47 @@ class Flow:
         return frozenset(out)
 
     def _sorted_in_place(self, name, f, use):
-        body = f.node.body
-        at = None
-        for i, st in enumerate(body):
-            if isinstance(st, ast.Expr) and isinstance(st.value, ast.Call) and isinstance(st.value.func, ast.Attribute) and st.value.func.attr == "sort" \
-                    and isinstance(st.value.func.value, ast.Name) and st.value.func.value.id == name and not st.value.args and not st.value.keywords:
-                at = i
-        if at is None:
+        """`name.sort()` (default ordering) stands between every change to the local list and this read: the sort is a
+        statement outside any loop, each statement that changes the list lies inside an earlier statement of the sort's own
+        block, nothing changes the list later, and the read comes after the sort."""
+        MUT = ("append", "extend", "insert", "reverse", "pop", "remove", "clear", "sort", "__setitem__")
+        parent = {}
+        for n in ast.walk(f.node):
+            for c in ast.iter_child_nodes(n):
+                parent[c] = n
+        sorts = [n for n in ast.walk(f.node) if isinstance(n, ast.Expr) and isinstance(n.value, ast.Call) and isinstance(n.value.func, ast.Attribute) and n.value.func.attr == "sort"
+                 and isinstance(n.value.func.value, ast.Name) and n.value.func.value.id == name and not n.value.args and not n.value.keywords]
+        if len(sorts) != 1:
             return False
-        later = body[at + 1:]
-        if not any(n is use for st in later for n in ast.walk(st)):
+        srt = sorts[0]
+        p = parent.get(srt)
+        while p is not None and p is not f.node:
+            if isinstance(p, (ast.For, ast.While, ast.AsyncFor, ast.FunctionDef, ast.AsyncFunctionDef, ast.Lambda)):
+                return False
+            p = parent.get(p)
+        holder = parent.get(srt)
+        block = next((getattr(holder, fl) for fl in ("body", "orelse", "finalbody") if isinstance(getattr(holder, fl, None), list) and srt in getattr(holder, fl)), None)
+        if block is None:
             return False
-        for st in later:
-            for n in ast.walk(st):
-                if isinstance(n, ast.Name) and n.id == name and n is not use:
-                    par_store = isinstance(n.ctx, (ast.Store, ast.Del))
-                    if par_store:
-                        return False
-                if isinstance(n, ast.Call) and isinstance(n.func, ast.Attribute) and isinstance(n.func.value, ast.Name) and n.func.value.id == name \
-                        and n.func.attr in ("append", "extend", "insert", "reverse", "pop", "remove", "clear", "sort", "__setitem__"):
+        at = block.index(srt)
+        before = {id(x) for st in block[:at] for x in ast.walk(st)}
+        changes = []
+        for n in ast.walk(f.node):
+            if isinstance(n, ast.Call) and isinstance(n.func, ast.Attribute) and isinstance(n.func.value, ast.Name) and n.func.value.id == name and n.func.attr in MUT and n is not srt.value:
+                changes.append(n)
+            elif isinstance(n, ast.Subscript) and isinstance(n.ctx, (ast.Store, ast.Del)) and isinstance(n.value, ast.Name) and n.value.id == name:
+                changes.append(n)
+            elif isinstance(n, ast.AugAssign) and isinstance(n.target, ast.Name) and n.target.id == name:
+                changes.append(n)
+            elif isinstance(n, ast.Name) and n.id == name and isinstance(n.ctx, (ast.Store, ast.Del)):
+                # (re)binding: must come before the sort as well - but not inside the sort's block statements' siblings after it
+                if getattr(n, "lineno", 0) > srt.lineno:
                     return False
-                if isinstance(n, ast.Subscript) and isinstance(n.ctx, (ast.Store, ast.Del)) and isinstance(n.value, ast.Name) and n.value.id == name:
-                    return False
-        return True
+        if any(id(c) not in before for c in changes):
+            return False
+        if id(use) in before or any(use is x for x in ast.walk(srt)):
+            return False
+        return getattr(use, "lineno", 0) > srt.lineno
 
     def _iter_unpack(self, itt, idx, env, depth):
         """What the idx-th name of a tuple target receives when iterating over a value with terms itt."""
